@@ -52,6 +52,38 @@ theorem Tri.lex {x1 y1 z1 x2 y2 z2 : Int} (h1 : Tri x1 y1 z1) (h2 : Tri x2 y2 z2
       simp [e1, e2]
     · simp [hy1] at hy
 
+theorem lex_of_ne {a : Int} (b : Int) (h : a ≠ 0) : lex a b = a := by simp [lex, h]
+
+/-- `Tri.lex` where the second components need to be related only when the first ones are both 0
+    (a struct field: the values are compared only after the presence marks compared equal) -/
+theorem tri_lex' {x1 y1 z1 x2 y2 z2 : Int} (h1 : Tri x1 y1 z1)
+    (h2 : x1 = 0 → y1 = 0 → Tri x2 y2 z2) : Tri (lex x1 x2) (lex y1 y2) (lex z1 z2) := by
+  by_cases hx1 : x1 = 0
+  · by_cases hy1 : y1 = 0
+    · exact Tri.lex h1 (h2 hx1 hy1)
+    · have e : z1 = y1 := h1.2.1 hx1
+      have ex : lex x1 x2 = x2 := by simp [Stef.Cmp.lex, hx1]
+      have ey : lex y1 y2 = y1 := by simp [Stef.Cmp.lex, hy1]
+      have ez : lex z1 z2 = y1 := by simp [Stef.Cmp.lex, e, hy1]
+      rw [ex, ey, ez]
+      refine ⟨?_, ?_, ?_⟩ <;> intros <;> omega
+  · have ex : lex x1 x2 = x1 := by simp [Stef.Cmp.lex, hx1]
+    by_cases hy1 : y1 = 0
+    · have e : z1 = x1 := h1.2.2 hy1
+      have ey : lex y1 y2 = y2 := by simp [Stef.Cmp.lex, hy1]
+      have ez : lex z1 z2 = x1 := by simp [Stef.Cmp.lex, e, hx1]
+      rw [ex, ey, ez]
+      refine ⟨?_, ?_, ?_⟩ <;> intros <;> omega
+    · have ey : lex y1 y2 = y1 := by simp [Stef.Cmp.lex, hy1]
+      rw [ex, ey]
+      refine ⟨?_, ?_, ?_⟩
+      · intro hx hy
+        have hz := h1.1 hx hy
+        have ez : lex z1 z2 = z1 := lex_of_ne _ (by omega)
+        omega
+      · intro hx; omega
+      · intro hy; omega
+
 theorem Tri.sub (x y z : Int) : Tri (x - y) (y - z) (x - z) := by
   refine ⟨?_, ?_, ?_⟩ <;> intros <;> omega
 
@@ -68,6 +100,18 @@ theorem lex_eq_zero {a b : Int} : lex a b = 0 ↔ a = 0 ∧ b = 0 := by
   by_cases h : a = 0 <;> simp [h]
 
 theorem lex_zero_left (b : Int) : lex 0 b = b := by simp [lex]
+
+theorem skipAbsent_zero (p : Presence) : skipAbsent p 0 = 0 := by cases p <;> rfl
+
+theorem skipAbsent_neg (p : Presence) (c : Int) : skipAbsent p (-c) = -(skipAbsent p c) := by
+  cases p <;> simp [skipAbsent]
+
+theorem tri_skipAbsent (p : Presence) {x y z : Int} (h : Tri x y z) :
+    Tri (skipAbsent p x) (skipAbsent p y) (skipAbsent p z) := by
+  cases p
+  · exact ⟨fun h _ => h, fun _ => rfl, fun _ => rfl⟩
+  · exact h
+  · exact h
 
 theorem sgnCmp_self (x : Int) : sgnCmp x x = 0 := by simp [sgnCmp]
 
@@ -324,6 +368,22 @@ theorem Tri.of_ranks {x y z ra rb rc : Int}
       · have ez := hz h3
         refine ⟨?_, ?_, ?_⟩ <;> intros <;> omega
 
+theorem presCmp_eq_zero {p q : Presence} (h : presCmp p q = 0) : p = q := by
+  cases p <;> cases q <;> simp [presCmp, Presence.rank] at h ⊢
+
+theorem cmpValues_zero_len (o : LeafOps α) : ∀ a b : Values α, cmpValues o a b = 0 → a.len = b.len := by
+  intro a b h
+  cases a with
+  | nil => cases b with
+    | nil => rfl
+    | cons w s => simp [cmpValues] at h
+  | cons v r => cases b with
+    | nil => simp [cmpValues] at h
+    | cons w s =>
+      simp only [cmpValues, lex_eq_zero] at h
+      simp only [Values.len]
+      rw [cmpValues_zero_len o r s h.2]
+
 theorem cmpKeys_zero_len (o : LeafOps α) : ∀ a b : Pairs α, cmpKeys o a b = 0 → a.len = b.len := by
   intro a b h
   cases a with
@@ -354,7 +414,7 @@ theorem cmpFields_refl {P : α → Prop} {o : LeafOps α} (h : LeafOrder P o.cmp
   | .nil, _ => by simp [cmpFields]
   | .cons p v rest, hv => by
     simp only [cmpFields, presCmp, Int.sub_self, lex_zero_left]
-    rw [cmp_refl h v hv.1, lex_zero_left]; exact cmpFields_refl h rest hv.2
+    rw [cmp_refl h v hv.1, skipAbsent_zero, lex_zero_left]; exact cmpFields_refl h rest hv.2
 theorem cmpValues_refl {P : α → Prop} {o : LeafOps α} (h : LeafOrder P o.cmp) :
     ∀ v : Values α, v.All P → cmpValues o v v = 0
   | .nil, _ => by simp [cmpValues]
@@ -420,8 +480,14 @@ theorem cmpFields_antisymm {P : α → Prop} {o : LeafOps α} (h : LeafOrder P o
     | nil => simp [cmpFields]
     | cons q w s =>
       simp only [cmpFields]
-      rw [cmp_antisymm h v w ha.1 hb.1, cmpFields_antisymm h r s ha.2 hb.2, lex_neg,
-        presCmp_antisymm p q, lex_neg]
+      by_cases e : p = q
+      · have hs : skipAbsent p (cmp o v w) = -(skipAbsent q (cmp o w v)) := by
+          rw [e, cmp_antisymm h v w ha.1 hb.1, skipAbsent_neg]
+        rw [hs, cmpFields_antisymm h r s ha.2 hb.2, lex_neg, presCmp_antisymm p q, lex_neg]
+      · have h1 : presCmp p q ≠ 0 := fun h0 => e (presCmp_eq_zero h0)
+        have h2 : presCmp q p ≠ 0 := fun h0 => e (presCmp_eq_zero h0).symm
+        rw [lex_of_ne _ h1, lex_of_ne _ h2]
+        exact presCmp_antisymm p q
 theorem cmpValues_antisymm {P : α → Prop} {o : LeafOps α} (h : LeafOrder P o.cmp) :
     ∀ a b : Values α, a.All P → b.All P → cmpValues o a b = -(cmpValues o b a) := by
   intro a b ha hb
@@ -537,8 +603,13 @@ theorem cmpFields_tri {P : α → Prop} {o : LeafOps α} (h : LeafOrder P o.cmp)
       | nil => simp [cmpFields, Tri]
       | cons t u x =>
         simp only [cmpFields, presCmp]
-        exact Tri.lex (Tri.sub _ _ _)
-          (Tri.lex (cmp_tri h v w u ha.1 hb.1 hc.1) (cmpFields_tri h r s x ha.2 hb.2 hc.2))
+        refine tri_lex' (Tri.sub _ _ _) (fun e1 e2 => ?_)
+        -- equal presence on all three sides: the same fields are skipped
+        have hpq : p = q := presCmp_eq_zero e1
+        have hqt : q = t := presCmp_eq_zero e2
+        subst hpq; subst hqt
+        exact Tri.lex (tri_skipAbsent p (cmp_tri h v w u ha.1 hb.1 hc.1))
+          (cmpFields_tri h r s x ha.2 hb.2 hc.2)
 theorem cmpValues_tri {P : α → Prop} {o : LeafOps α} (h : LeafOrder P o.cmp) :
     ∀ a b c : Values α, a.All P → b.All P → c.All P →
       Tri (cmpValues o a b) (cmpValues o b c) (cmpValues o a c) := by
@@ -601,12 +672,15 @@ theorem cmpVals_tri {P : α → Prop} {o : LeafOps α} (h : LeafOrder P o.cmp) :
 end
 
 
-theorem presCmp_eq_zero {p q : Presence} (h : presCmp p q = 0) : p = q := by
-  cases p <;> cases q <;> simp [presCmp, Presence.rank] at h ⊢
+/-! ### Cmp = 0 exactly for values holding the same data
+
+  Since /repo 82431a4 Cmp<Struct> does not read the value stored in an absent optional field, so
+  `cmp` no longer separates two trees that differ only there: zero means `data a = data b` (and
+  for trees without absent optional fields, `data` is the identity). -/
 
 mutual
-theorem cmp_eq_of_zero {P : α → Prop} {o : LeafOps α} (h : LeafExact P o.cmp) :
-    ∀ a b : Value α, a.All P → b.All P → cmp o a b = 0 → a = b := by
+theorem cmp_data_of_zero {P : α → Prop} {o : LeafOps α} (h : LeafExact P o.cmp) :
+    ∀ a b : Value α, a.All P → b.All P → cmp o a b = 0 → data a = data b := by
   intro a b ha hb hz
   by_cases hr : a.rank = b.rank
   · cases a with
@@ -619,7 +693,9 @@ theorem cmp_eq_of_zero {P : α → Prop} {o : LeafOps α} (h : LeafExact P o.cmp
       | _ => exfalso; simp [Value.rank] at hr
     | struct fs => cases b with
       | null => simp [cmp] at hz
-      | struct gs => simp only [cmp] at hz; rw [cmpFields_eq_of_zero h fs gs ha hb hz]
+      | struct gs =>
+        simp only [cmp] at hz
+        simp only [data]; rw [cmpFields_data_of_zero h fs gs ha hb hz]
       | _ => exfalso; simp [Value.rank] at hr
     | none => cases b with
       | none => rfl
@@ -629,21 +705,22 @@ theorem cmp_eq_of_zero {P : α → Prop} {o : LeafOps α} (h : LeafExact P o.cmp
       | none => simp [cmp, u64_typ_zero] at hz
       | choice j w =>
         simp only [cmp, lex_eq_zero] at hz
-        rw [typOf_inj (u64_eq_of_zero hz.1), cmp_eq_of_zero h v w ha hb hz.2]
+        simp only [data]
+        rw [typOf_inj (u64_eq_of_zero hz.1), cmp_data_of_zero h v w ha hb hz.2]
       | _ => exfalso; simp [Value.rank] at hr
     | arr es => cases b with
       | arr fs =>
         simp only [cmp, lex_eq_zero] at hz
-        rw [cmpValues_eq_of_zero h es fs ha hb hz.2]
+        simp only [data]; rw [cmpValues_data_of_zero h es fs ha hb hz.2]
       | _ => exfalso; simp [Value.rank] at hr
     | mmap ps => cases b with
       | mmap qs =>
         simp only [cmp, lex_eq_zero] at hz
-        rw [cmpPairs_eq_of_zero h ps qs ha hb hz.1 hz.2]
+        simp only [data]; rw [cmpPairs_data_of_zero h ps qs ha hb hz.1 hz.2]
       | _ => exfalso; simp [Value.rank] at hr
   · rw [cmp_rank_ne o a b hr] at hz; omega
-theorem cmpFields_eq_of_zero {P : α → Prop} {o : LeafOps α} (h : LeafExact P o.cmp) :
-    ∀ a b : Fields α, a.All P → b.All P → cmpFields o a b = 0 → a = b := by
+theorem cmpFields_data_of_zero {P : α → Prop} {o : LeafOps α} (h : LeafExact P o.cmp) :
+    ∀ a b : Fields α, a.All P → b.All P → cmpFields o a b = 0 → dataFields a = dataFields b := by
   intro a b ha hb hz
   cases a with
   | nil => cases b with
@@ -653,10 +730,20 @@ theorem cmpFields_eq_of_zero {P : α → Prop} {o : LeafOps α} (h : LeafExact P
     | nil => simp [cmpFields] at hz
     | cons q w s =>
       simp only [cmpFields, lex_eq_zero] at hz
-      rw [presCmp_eq_zero hz.1, cmp_eq_of_zero h v w ha.1 hb.1 hz.2.1,
-        cmpFields_eq_of_zero h r s ha.2 hb.2 hz.2.2]
-theorem cmpValues_eq_of_zero {P : α → Prop} {o : LeafOps α} (h : LeafExact P o.cmp) :
-    ∀ a b : Values α, a.All P → b.All P → cmpValues o a b = 0 → a = b := by
+      obtain ⟨hp, hv, hrest⟩ := hz
+      have e := presCmp_eq_zero hp
+      subst e
+      have ir := cmpFields_data_of_zero h r s ha.2 hb.2 hrest
+      cases p with
+      | absent => simp only [dataFields, ir]
+      | present =>
+        simp only [skipAbsent] at hv
+        simp only [dataFields, ir, cmp_data_of_zero h v w ha.1 hb.1 hv]
+      | req =>
+        simp only [skipAbsent] at hv
+        simp only [dataFields, ir, cmp_data_of_zero h v w ha.1 hb.1 hv]
+theorem cmpValues_data_of_zero {P : α → Prop} {o : LeafOps α} (h : LeafExact P o.cmp) :
+    ∀ a b : Values α, a.All P → b.All P → cmpValues o a b = 0 → dataValues a = dataValues b := by
   intro a b ha hb hz
   cases a with
   | nil => cases b with
@@ -666,9 +753,11 @@ theorem cmpValues_eq_of_zero {P : α → Prop} {o : LeafOps α} (h : LeafExact P
     | nil => simp [cmpValues] at hz
     | cons w s =>
       simp only [cmpValues, lex_eq_zero] at hz
-      rw [cmp_eq_of_zero h v w ha.1 hb.1 hz.1, cmpValues_eq_of_zero h r s ha.2 hb.2 hz.2]
-theorem cmpPairs_eq_of_zero {P : α → Prop} {o : LeafOps α} (h : LeafExact P o.cmp) :
-    ∀ a b : Pairs α, a.All P → b.All P → cmpKeys o a b = 0 → cmpVals o a b = 0 → a = b := by
+      simp only [dataValues]
+      rw [cmp_data_of_zero h v w ha.1 hb.1 hz.1, cmpValues_data_of_zero h r s ha.2 hb.2 hz.2]
+theorem cmpPairs_data_of_zero {P : α → Prop} {o : LeafOps α} (h : LeafExact P o.cmp) :
+    ∀ a b : Pairs α, a.All P → b.All P → cmpKeys o a b = 0 → cmpVals o a b = 0 →
+      dataPairs a = dataPairs b := by
   intro a b ha hb hk hv
   cases a with
   | nil => cases b with
@@ -679,8 +768,134 @@ theorem cmpPairs_eq_of_zero {P : α → Prop} {o : LeafOps α} (h : LeafExact P 
     | cons j w s =>
       simp only [cmpKeys, lex_eq_zero] at hk
       simp only [cmpVals, lex_eq_zero] at hv
-      rw [cmp_eq_of_zero h k j ha.1 hb.1 hk.1, cmp_eq_of_zero h v w ha.2.1 hb.2.1 hv.1,
-        cmpPairs_eq_of_zero h r s ha.2.2 hb.2.2 hk.2 hv.2]
+      simp only [dataPairs]
+      rw [cmp_data_of_zero h k j ha.1 hb.1 hk.1, cmp_data_of_zero h v w ha.2.1 hb.2.1 hv.1,
+        cmpPairs_data_of_zero h r s ha.2.2 hb.2.2 hk.2 hv.2]
+end
+
+mutual
+theorem cmp_zero_of_data {P : α → Prop} {o : LeafOps α} (h : LeafOrder P o.cmp) :
+    ∀ a b : Value α, a.All P → data a = data b → cmp o a b = 0 := by
+  intro a b ha e
+  cases a with
+  | leaf x =>
+    cases b <;> simp [data] at e
+    subst e; simp only [cmp]; exact h.refl _ ha
+  | null => cases b <;> simp [data] at e; simp [cmp]
+  | struct fs =>
+    cases b <;> simp [data] at e
+    simp only [cmp]; exact cmpFields_zero_of_data h fs _ ha e
+  | none => cases b <;> simp [data] at e; simp only [cmp]; exact u64_refl _
+  | choice k v =>
+    cases b <;> simp [data] at e
+    obtain ⟨e1, e2⟩ := e
+    subst e1
+    simp only [cmp, u64_refl, lex_zero_left]; exact cmp_zero_of_data h v _ ha e2
+  | arr es =>
+    cases b <;> simp [data] at e
+    have hv := cmpValues_zero_of_data h es _ ha e
+    have hl := cmpValues_zero_len o _ _ hv
+    simp only [cmp, hv, hl, Int.sub_self, lex_zero_left]
+  | mmap ps =>
+    cases b <;> simp [data] at e
+    have hv := cmpPairs_zero_of_data h ps _ ha e
+    simp only [cmp, hv.1, hv.2, lex_zero_left]
+theorem cmpFields_zero_of_data {P : α → Prop} {o : LeafOps α} (h : LeafOrder P o.cmp) :
+    ∀ a b : Fields α, a.All P → dataFields a = dataFields b → cmpFields o a b = 0 := by
+  intro a b ha e
+  cases a with
+  | nil => cases b with
+    | nil => simp [cmpFields]
+    | cons q w s => cases q <;> simp [dataFields] at e
+  | cons p v r => cases b with
+    | nil => cases p <;> simp [dataFields] at e
+    | cons q w s =>
+      cases p with
+      | absent =>
+        cases q <;> simp [dataFields] at e
+        simp [cmpFields, presCmp, skipAbsent, lex, cmpFields_zero_of_data h r s ha.2 e]
+      | present =>
+        cases q <;> simp [dataFields] at e
+        simp [cmpFields, presCmp, skipAbsent, lex, cmpFields_zero_of_data h r s ha.2 e.2,
+          cmp_zero_of_data h v w ha.1 e.1]
+      | req =>
+        cases q <;> simp [dataFields] at e
+        simp [cmpFields, presCmp, skipAbsent, lex, cmpFields_zero_of_data h r s ha.2 e.2,
+          cmp_zero_of_data h v w ha.1 e.1]
+theorem cmpValues_zero_of_data {P : α → Prop} {o : LeafOps α} (h : LeafOrder P o.cmp) :
+    ∀ a b : Values α, a.All P → dataValues a = dataValues b → cmpValues o a b = 0 := by
+  intro a b ha e
+  cases a with
+  | nil => cases b <;> simp [dataValues] at e; simp [cmpValues]
+  | cons v r =>
+    cases b <;> simp [dataValues] at e
+    simp [cmpValues, lex, cmp_zero_of_data h v _ ha.1 e.1, cmpValues_zero_of_data h r _ ha.2 e.2]
+theorem cmpPairs_zero_of_data {P : α → Prop} {o : LeafOps α} (h : LeafOrder P o.cmp) :
+    ∀ a b : Pairs α, a.All P → dataPairs a = dataPairs b → cmpKeys o a b = 0 ∧ cmpVals o a b = 0 := by
+  intro a b ha e
+  cases a with
+  | nil => cases b <;> simp [dataPairs] at e; simp [cmpKeys, cmpVals]
+  | cons k v r =>
+    cases b <;> simp [dataPairs] at e
+    have ir := cmpPairs_zero_of_data h r _ ha.2.2 e.2.2
+    simp [cmpKeys, cmpVals, lex, cmp_zero_of_data h k _ ha.1 e.1, cmp_zero_of_data h v _ ha.2.1 e.2.1,
+      ir.1, ir.2]
+end
+
+/-! ### trees without hidden state -/
+
+mutual
+/-- no optional field is absent anywhere in the tree (so no stored-but-invisible value exists) -/
+def Value.NoAbsent : Value α → Prop
+  | .struct fs => fs.NoAbsent
+  | .choice _ v => v.NoAbsent
+  | .arr es => es.NoAbsent
+  | .mmap ps => ps.NoAbsent
+  | _ => True
+def Fields.NoAbsent : Fields α → Prop
+  | .nil => True
+  | .cons p v rest => p ≠ .absent ∧ v.NoAbsent ∧ rest.NoAbsent
+def Values.NoAbsent : Values α → Prop
+  | .nil => True
+  | .cons v rest => v.NoAbsent ∧ rest.NoAbsent
+def Pairs.NoAbsent : Pairs α → Prop
+  | .nil => True
+  | .cons k v rest => k.NoAbsent ∧ v.NoAbsent ∧ rest.NoAbsent
+end
+
+mutual
+theorem data_noAbsent : ∀ v : Value α, v.NoAbsent → data v = v := by
+  intro v h
+  cases v with
+  | leaf a => rfl
+  | null => rfl
+  | struct fs => simp only [data]; rw [dataFields_noAbsent fs h]
+  | none => rfl
+  | choice k w => simp only [data]; rw [data_noAbsent w h]
+  | arr es => simp only [data]; rw [dataValues_noAbsent es h]
+  | mmap ps => simp only [data]; rw [dataPairs_noAbsent ps h]
+theorem dataFields_noAbsent : ∀ v : Fields α, v.NoAbsent → dataFields v = v := by
+  intro v h
+  cases v with
+  | nil => rfl
+  | cons p w r =>
+    obtain ⟨hp, hw, hr⟩ := h
+    cases p with
+    | absent => exact absurd rfl hp
+    | present => simp only [dataFields]; rw [data_noAbsent w hw, dataFields_noAbsent r hr]
+    | req => simp only [dataFields]; rw [data_noAbsent w hw, dataFields_noAbsent r hr]
+theorem dataValues_noAbsent : ∀ v : Values α, v.NoAbsent → dataValues v = v := by
+  intro v h
+  cases v with
+  | nil => rfl
+  | cons w r => simp only [dataValues]; rw [data_noAbsent w h.1, dataValues_noAbsent r h.2]
+theorem dataPairs_noAbsent : ∀ v : Pairs α, v.NoAbsent → dataPairs v = v := by
+  intro v h
+  cases v with
+  | nil => rfl
+  | cons k w r =>
+    simp only [dataPairs]
+    rw [data_noAbsent k h.1, data_noAbsent w h.2.1, dataPairs_noAbsent r h.2.2]
 end
 
 /-! ### the laws as stated in the property, and the bridge to the `Tri` form -/
@@ -692,6 +907,14 @@ structure TotalOrderCmp {β : Type} (P : β → Prop) (c : β → β → Int) : 
   antisymm : ∀ a b, P a → P b → c a b = -(c b a)
   trans : ∀ a b d, P a → P b → P d → c a b ≤ 0 → c b d ≤ 0 → c a d ≤ 0
   eq_zero_iff : ∀ a b, P a → P b → (c a b = 0 ↔ a = b)
+
+/-- the same laws, where zero means "the same data" under a projection `key` (for record trees:
+    `data`, which forgets the values stored in absent optional fields) -/
+structure TotalOrderUpTo {β γ : Type} (P : β → Prop) (key : β → γ) (c : β → β → Int) : Prop where
+  refl : ∀ a, P a → c a a = 0
+  antisymm : ∀ a b, P a → P b → c a b = -(c b a)
+  trans : ∀ a b d, P a → P b → P d → c a b ≤ 0 → c b d ≤ 0 → c a d ≤ 0
+  eq_zero_iff : ∀ a b, P a → P b → (c a b = 0 ↔ key a = key b)
 
 theorem LeafExact.toTotal {P : α → Prop} {c : α → α → Int} (h : LeafExact P c) : TotalOrderCmp P c where
   refl := h.refl
